@@ -426,6 +426,19 @@ func CreateDB(dbName string) error {
 }
 
 func (rs *RelationService) CreateTable(r *Relation, tableName string) error {
+	if err := rs.createTable(r, tableName); err != nil {
+		return err
+	}
+
+	return rs.fs.flushPages()
+}
+
+// createTable changes the catalog pages under the shared lock so that the
+// background flusher does not run in the middle of it.
+func (rs *RelationService) createTable(r *Relation, tableName string) error {
+	rs.fs.lockShared()
+	defer rs.fs.unlockShared()
+
 	_, err := rs.getRelationFileOffset(tableName)
 	if err != ErrTableNotExist {
 		return ErrTableAlreadyExist
@@ -442,7 +455,7 @@ func (rs *RelationService) CreateTable(r *Relation, tableName string) error {
 		return err
 	}
 
-	return rs.fs.flushPages()
+	return nil
 }
 
 func (rs *RelationService) createPage() (*btreeNode, error) {
